@@ -1060,7 +1060,12 @@ public:
 
   bool is_bottom() const override { return m_product.is_bottom(); }
 
-  bool is_top() const override { return m_product.is_top(); }
+  bool is_top() const override {
+    // A value that still remembers facts for reduction ("if b is true
+    // then ...") does not describe all the states.
+    return m_product.is_top() && m_bool_to_lincsts.is_top() &&
+           m_bool_to_refcsts.is_top() && m_bool_to_bools.is_top();
+  }
 
   bool_domain_t &first() { return m_product.first(); }
 
